@@ -43,7 +43,8 @@ PROP = {
     'blocks': ['hist'],
     'namespaces': ['Altrios.Proofs.C19'],
     'nontrivial_stats': ['hist.fresh.steps.4-15', 'hist.fresh.steps.16-99', 'hist.fresh.steps.100+',
-                         'hist.script.failing_step', 'hist.script.set_interval', 'hist.walk.ended_with_error'],
+                         'hist.script.failing_step', 'hist.script.set_interval', 'hist.walk.ended_with_error',
+                         'hist.fresh.resumed_after_error'],
     'proof_modules': ['C19'],
     'required_theorems': [
         'Altrios.Proofs.C19.scan_ok',
@@ -69,7 +70,9 @@ PROP = {
             'regenerated shape, and the oracle requires directly on the real dump: all counters equal, all '
             'intervals equal the top-level one, all histories of equal length with identical i columns, rows in '
             'step order, for fresh walks the exact i column (initial row iff interval 1, then the multiples) and '
-            'row count, None => empty, a failing step changes nothing, time column = step index',
+            'row count, None => empty, a failing step changes nothing, rows written before an error survive a resumed walk, time '
+            'column = step index; a second, shape-agnostic oracle walks the serialized simulation and compares EVERY '
+            'object that has a history (so a component unknown to the typed dump is still compared)',
     'trusted_extra': ['/verif/scan/scan_history.py (strict source reader producing lean/Generated/HistoryTree.lean)'],
 }
 
